@@ -119,6 +119,11 @@ func (vc *VC) mergeStates(preds []*State, conds []Term) *State {
 
 func (vc *VC) havocAll(s *State) *State {
 	vc.noteWrite("*")
+	return vc.havocAllQuiet(s)
+}
+
+// havocAllQuiet forgets everything without recording a write (used for the discovery pass at loop headers).
+func (vc *VC) havocAllQuiet(s *State) *State {
 	n := vc.newState(stHavocAll, s)
 	// the allocation frontier only grows
 	a0 := s.get("$alloc", SBV64)
